@@ -6,6 +6,12 @@ A_COMMON = [
     "Network::wf: instance validity as documented (references resolve, activity durations positive, dead-head matrix total on the stations, times are proper points with seconds < 86400, magnitudes < 2^48 s / 2^40 m so that u64 arithmetic cannot overflow)",
 ]
 
+A_ITER = [
+    "A-iter: SeqIter shim (env/seqiter.vs): map, sum, any, all, position, tuple_windows, take, skip, copied, collect, for-loops carry the assumed semantics of std::iter / itertools; R5 routes `.iter()` chains to it",
+    "A-fmt (R9): format!(LIT, ..) with literal text returns a non-empty String; Display impls have no precondition",
+    "A-len: a well-formed tour has at most 2^17+2 nodes (pairwise distinct nodes, Idx = u16) — stated precondition of the operations, argued not machine-checked",
+]
+
 PROPS = {
     "C17": dict(
         slices=["time", "network", "net_enum"],
@@ -23,29 +29,23 @@ PROPS = {
 
 
 PROPS["C12"] = dict(
-    slices=["tour_pos"],
+    slices=["tour_pos", "tour_mod", "path"],
     witness_family="tour",
-    level_text="Verus proves, for all well-formed tours over all valid networks and all segments/nodes, that the real position logic (binary searches, latest_not_reaching_node, latest_not_reached_by_node, get_insert_positions), check_if_sequence_is_removable, conflict and sub_path satisfy the reference semantics written from the property statement (longest prefix / longest suffix, exactly the dropped block, refusal conditions, sub_path always succeeds)",
-    level_note="trusted: vstd specs, key-model axioms, structural derived Eq/Ord, to_vec; Tour::position_of and Path::new_trusted are stubs in this slice; Tour::wf and Network::wf are preconditions",
-    scope="position logic, removability, conflict, sub_path of solution/src/tour.rs",
+    level_text="Verus proves, for all well-formed tours over all valid networks, all connected paths and all segments, that the real code satisfies the reference semantics written from the property statement: the position logic (binary searches, latest_not_reaching_node, latest_not_reached_by_node, get_insert_positions) yields the longest prefix / longest suffix; insert_path returns prefix + whole path + suffix and reports exactly the dropped block (None iff it holds no activity); remove returns the tour without exactly the segment's nodes and is refused exactly when a depot would be stranded or the gap is unconnectable; check_if_sequence_is_removable, conflict and sub_path (always succeeds for an existing segment) likewise",
+    level_note="trusted: vstd specs, key-model axioms, structural derived Eq/Ord, to_vec, the SeqIter shim incl. splice (R5b) and Vec::extend; Tour::position_of is a stub (A-stub); Tour::wf / Network::wf / path connectedness are preconditions",
+    scope="solution/src/tour.rs position logic + Tour::insert_path / remove / sub_path / conflict",
     assumptions=A_COMMON + [
         "A-stub: Tour::position_of (binary_search_by on cmp_start_time) returns the index of the node iff it is in the tour",
-        "A-stub: Path::new_trusted returns None iff all nodes are depots, else a path with exactly the given nodes",
-    ],
+    ] + A_ITER,
 )
 
-A_ITER = [
-    "A-iter: SeqIter shim (env/seqiter.vs): map, sum, any, all, position, tuple_windows, take, skip, copied, collect, for-loops carry the assumed semantics of std::iter / itertools; R5 routes `.iter()` chains to it",
-    "A-fmt (R9): format!(LIT, ..) with literal text returns a non-empty String; Display impls have no precondition",
-    "A-len: a well-formed tour has at most 2^17+2 nodes (pairwise distinct nodes, Idx = u16) — stated precondition of the operations, argued not machine-checked",
-]
 
 PROPS["C01"] = dict(
-    slices=["network", "net_enum", "tour_pos", "tour_mod"],
+    slices=["network", "net_enum", "tour_pos", "tour_mod", "path"],
     witness_family="tour",
-    level_text="Verus proves on the real code: can_reach equals the documented timing rule; Tour::new_allow_invalid returns Ok exactly for node sequences that start at a start depot, end at an end depot, have only activities in between, at least one of them, and are pairwise connectable; replace_start_depot / replace_end_depot preserve that invariant (Tour::wf); the position logic used by insert_path/remove follows the reference semantics. Type feasibility and the JSON writer are assumptions, not proved",
-    level_note="trusted: vstd, key-model axioms, derived Eq/Ord, the SeqIter shim, to_vec/Option::or/Result::unwrap_or specs, A-fmt; stubs: Tour::position_of, Path::new_trusted; A-path (paths handed to insert_path are connected), A-type (compatible_with_vehicle_type guards in schedule/modifications.rs) and A-json are caller-side assumptions",
-    scope="tour-level feasibility invariant: constructor + depot replacement (+ position logic); insert_path/remove bodies: see DESIGN.md coverage table",
+    level_text="Verus proves on the real code: can_reach equals the documented timing rule; Tour::new_allow_invalid returns Ok exactly for node sequences that start at a start depot, end at an end depot, have only activities in between, at least one of them, and are pairwise connectable; replace_start_depot, replace_end_depot, remove and insert_path (given a connected path, which Path::new is proved to establish) preserve that invariant (Tour::wf); successors/predecessors enumerate exactly the connectable nodes. Type feasibility, Tour::new_dummy and the JSON writer are assumptions, not proved",
+    level_note="trusted: vstd, key-model axioms, derived Eq/Ord, the SeqIter shim, to_vec/Option::or/Result::unwrap_or specs, A-fmt; stub: Tour::position_of; A-path (paths handed to insert_path are connected), A-type (compatible_with_vehicle_type guards in schedule/modifications.rs) and A-json are caller-side assumptions",
+    scope="tour-level feasibility invariant under the constructor and all four modifiers of solution/src/tour",
     assumptions=A_COMMON + A_ITER + [
         "A-path: every path handed to Tour::insert_path of a real vehicle is connected (holds for Path::new and paths cut from real tours; dummy-tour paths rely on the triangle inequality, D9)",
         "A-type: a vehicle only serves segments of its own type rests on the compatible_with_vehicle_type guards at schedule level (not under contract)",
@@ -53,11 +53,11 @@ PROPS["C01"] = dict(
     ],
 )
 PROPS["C10"] = dict(
-    slices=["network", "tour_pos", "tour_mod"],
+    slices=["network", "tour_pos", "tour_mod", "path"],
     witness_family="tour",
     level_text="clause 1 only (every vehicle tour is a chronological path of connectable nodes from a start depot to an end depot with activities in between): same obligations as C01 on the Tour constructor and modifiers; formation/tour agreement, sorted listings, depot usage and cycle membership of schedules are NOT decided",
     level_note="same trusted base and caller-side assumptions as C01",
-    scope="Tour::wf established by new_allow_invalid and preserved by replace_start_depot / replace_end_depot",
+    scope="Tour::wf established by new_allow_invalid and preserved by replace_start_depot / replace_end_depot / remove / insert_path",
     assumptions=A_COMMON + A_ITER + ["A-path, A-type as for C01", "schedule-level invariants (formations, listings, depot usage, cycles) not under contract"],
 )
 PROPS["C02"] = dict(
@@ -79,9 +79,9 @@ PROPS["C03"] = dict(
 PROPS["C09"] = dict(
     slices=["tour_mod", "formation"],
     witness_family="tour",
-    level_text="tour level: Verus proves that compute_*_of_nodes (and hence new_computing / every freshly built tour) equal the from-scratch meaning of the five cached figures written from the property text, and that replace_start_depot / replace_end_depot keep all five caches exact, including tours through the infinitely distant overflow depot; schedule-level aggregates are NOT decided",
+    level_text="tour level: Verus proves that compute_*_of_nodes (and hence new_computing / every freshly built tour) equal the from-scratch meaning of the five cached figures written from the property text, and that replace_start_depot, replace_end_depot, remove and insert_path keep all five caches exact (delta formulas = recomputation), including tours through the infinitely distant overflow depot; schedule-level aggregates are NOT decided",
     level_note="trusted: as C01 plus A-iter sums (Sum for Distance/Duration folds with +; integer sums do not wrap); Network::bounded magnitudes are a stated precondition",
-    scope="tour caches: constructors + depot replacement; remove / insert_path: see DESIGN.md coverage table",
+    scope="the five per-tour caches under the constructor and all four modifiers",
     assumptions=A_COMMON + A_ITER + ["Schedule.{costs, unserved_passengers, maintenance_violation, depot_usage} delta updates are not under contract"],
 )
 PROPS["C13"] = dict(
